@@ -1091,6 +1091,9 @@ func (x *Exec) applyContract(c *Contract, f *types.Func, e *ast.CallExpr, args [
 	if c.Opts["opaque"] != "true" && c.Opts["opaque-in"] != x.mode {
 		x.assuming = true
 		for _, en := range c.Ensures {
+			if strings.HasPrefix(en.Prop, "local:") {
+				continue // about a local of the callee: not visible to callers
+			}
 			st.assume(x.evalBool(en.Expr, st))
 		}
 		x.assuming = false
